@@ -64,6 +64,16 @@ pub fn programs09() -> Vec<Prog> {
     p.push(Some("loop"), Stmt::Trap(Lit::hex(0x30)));
     p.push(Some("end"), Stmt::Named(0x25, "halt"));
     v.push(Prog::new("unknown-trap", p, true));
+    // source lines with multi-byte characters, longer than a cell of the breakpoint table (full
+    // output mode), in both byte parities
+    for (name, text) in [("long-non-ascii-line", "é".repeat(24)), ("long-non-ascii-line-shifted", format!("a{}", "é".repeat(24)))] {
+        let mut p = Program::default();
+        p.push(Some("first"), Stmt::Mem(PcRel::Lea, 0, lbl("loop")));
+        p.push(None, Stmt::Named(0x22, "puts"));
+        p.push(Some("end"), Stmt::Named(0x25, "halt"));
+        p.push(Some("loop"), Stmt::Stringz(text));
+        v.push(Prog::new(name, p, true));
+    }
     v
 }
 
